@@ -44,16 +44,13 @@ impl<const N: usize> Context<N> {
         if nonce.is_empty() {
             return false;
         }
-        match self.nonce_cache.try_lock() {
-            Ok(mut set) => set.get(nonce).is_some(),
-            Err(_) => false,
-        }
+        let mut set = self.nonce_cache.lock().unwrap_or_else(|e| e.into_inner());
+        set.get(nonce).is_some()
     }
 
     pub fn set_nonce(&self, nonce: [u8; N]) {
-        if let Ok(mut set) = self.nonce_cache.try_lock() {
-            set.insert(nonce, ());
-        }
+        let mut set = self.nonce_cache.lock().unwrap_or_else(|e| e.into_inner());
+        set.insert(nonce, ());
     }
 }
 
